@@ -2,6 +2,8 @@ package main
 
 // Environment leaves of murex itself (terminal, deprecation notices): fixed values.
 
+import "go/types"
+
 func init() {
 	intrinsics["github.com/lmorg/readline/v4.GetTermWidth"] = func(i *Interp, fr *frame, a []value) value { return int64(80) }
 	intrinsics["github.com/lmorg/readline/v4.GetSize"] = func(i *Interp, fr *frame, a []value) value {
@@ -111,4 +113,29 @@ func zeroPtrOrSlice(kind int) value {
 		return []value(nil)
 	}
 	return (*value)(nil)
+}
+
+// GODEBUG: no setting is set (internal/godebug is not initialised; its Setting values are nil in
+// packages whose initialisers the engine does not run).
+func init() {
+	intrinsics["(*internal/godebug.Setting).Value"] = func(i *Interp, fr *frame, a []value) value { return "" }
+	intrinsics["(*internal/godebug.Setting).IncNonDefault"] = func(i *Interp, fr *frame, a []value) value { return nil }
+	intrinsics["(*internal/godebug.Setting).Undocumented"] = func(i *Interp, fr *frame, a []value) value { return false }
+}
+
+// External programs: none is installed. os/exec.LookPath fails the way the real one does for a
+// missing program (*exec.Error wrapping "executable file not found in $PATH").
+func init() {
+	intrinsics["os/exec.LookPath"] = func(i *Interp, fr *frame, a []value) value {
+		p := i.ld.byPath["os/exec"]
+		if p == nil {
+			return tuple{"", i.mkError("executable file not found in $PATH")}
+		}
+		t := p.Type("Error").Object().Type()
+		e := zero(t).(structure)
+		e[0] = a[0]
+		e[1] = i.mkError("executable file not found in $PATH")
+		v := value(e)
+		return tuple{"", iface{t: types.NewPointer(t), v: &v}}
+	}
 }
